@@ -4,6 +4,7 @@ from __future__ import annotations
 import ast
 import datetime
 import inspect
+import itertools
 import textwrap
 
 import networkx as nx
@@ -82,6 +83,27 @@ def instrumented(func):
     g["__c__"] = c09.__c__
     f2 = c09.compile_function(ast.unparse(tree), fd.name, g)
     return f2, inst.k
+
+
+def table_alphabet(arg, year):
+    """Valid values of integer arguments that rules use as keys into parameter tables."""
+    if arg == "mietstufe":
+        return popgen.alphabet("mietstufe", year)
+    if arg == "alter":
+        return list(range(0, 101))
+    if arg == "steuerklasse":
+        return [1, 2, 3, 4, 5, 6]
+    if arg == "behinderungsgrad":
+        return list(range(0, 101, 10))
+    if arg == "geburtsjahr":
+        return list(range(year - 100, year + 1))
+    if arg.startswith("anz_personen"):
+        return list(range(1, 13))
+    if arg.startswith("anz_erwachsene"):
+        return list(range(0, 5))
+    if arg.startswith("anz_") or "_anz_" in arg:
+        return list(range(0, 11))
+    return None
 
 
 def task_class(date_iso):
@@ -166,6 +188,32 @@ def task_class(date_iso):
                 out.violation(f"not-implemented:{n}:class-{cls}", {**case0, "rule": n, "path": j}, repr(e)[:200])
             except Exception:  # noqa: BLE001
                 out.step()
+        # parameter tables indexed by data: the un-instrumented rule (real conditions, so only feasible branches run) with every valid
+        # value of its integer "table" arguments, singly and in pairs; a table without an entry for a valid value is a missing parameter
+        c09.STATE["mode"] = None
+        year = int(date_iso[:4])
+        targs = [(a, table_alphabet(a, year)) for a in sig.parameters if ann.get(a) is int and table_alphabet(a, year)]
+        combos = [((a,), [(v,) for v in al]) for a, al in targs]
+        combos += [((a, b), [(v, w) for v in al for w in bl]) for (a, al), (b, bl) in itertools.combinations(targs, 2)]
+        for names_, values in combos:
+            for vals in values:
+                del log[:]
+                try:
+                    with np.errstate(all="ignore"):
+                        func(**{**args, **dict(zip(names_, vals))})
+                    out.step()
+                except KeyError as e:
+                    out.step()
+                    key = e.args[0] if e.args else None
+                    if log and log[-1][1] == key and key in vals:
+                        a = names_[vals.index(key)]
+                        path = f"{log[-1][0]}[{a}={key}]"
+                        if path not in reported:
+                            reported.add(path)
+                            out.violation(f"missing-table-entry:{path}:class-{cls}", {**case0, "rule": n, "function": func.__name__, "arguments": dict(zip(names_, vals))},
+                                          f"rule {n} ({func.__name__}, active on {date_iso}) looks up {log[-1][0]}[{key}] for {dict(zip(names_, vals))}: a valid value without an entry on that date")
+                except Exception:  # noqa: BLE001
+                    out.step()
         c09.STATE["mode"] = None
     out.count("rules_explored", len(rules))
     out.sample({"date": date_iso, "rules": len(rules), "nodes": dag.number_of_nodes()}, limit=1)
@@ -231,7 +279,8 @@ def run(tier):
     rep.assumptions = [
         "every interval between two change dates is one equivalence class (this is what C07's stutter invariant establishes); its first and last day are explored",
         "rule level: all 2^m control-flow paths of every rule in the default-target graph are executed with the date's real parameters; only a failing "
-        "look-up of a string-literal key on a *_params dictionary counts (data-indexed look-ups are exercised by the population runs); membership tests "
+        "look-up of a string-literal key on a *_params dictionary counts, plus (with real conditions) look-ups keyed by valid values of integer arguments (mietstufe, "
+        "household sizes 1-12, counts 0-10, ages 0-100, tax classes) varied singly and in pairs; membership tests "
         "('k' in params) stay real because they guard optional parameters",
     ]
     return rep.finish(
